@@ -18,6 +18,7 @@ CONSTANTS
   PqRanges = {"mid", "top"}
   Families = {"cfg"}
   PqFamCols = 1
+  U64Check = FALSE
   Emit = FALSE
 INVARIANTS PqLossless
 CHECK_DEADLOCK FALSE
